@@ -307,6 +307,20 @@ func c20Apply(root any, m c20Mut, idx int, dir string, r *c20Render) any {
 			o["allOf"], o["anyOf"], o["oneOf"] = []any{}, []any{}, []any{}
 		case "schema_oneof_null_member":
 			o["oneOf"] = []any{nil, map[string]any{"type": "string"}}
+		case "schema_self_allof_default", "schema_self_anyof_example", "schema_self_not_default":
+			// a component schema that is a composition of ITSELF and carries a value to be checked against it
+			if len(n.path) != 3 || n.path[0] != "components" || n.path[1] != "schemas" {
+				return root
+			}
+			self := map[string]any{"$ref": "#/components/schemas/" + fmt.Sprint(n.path[2])}
+			switch m.Op {
+			case "schema_self_allof_default":
+				o = map[string]any{"allOf": []any{self}, "default": json.Number("1")}
+			case "schema_self_anyof_example":
+				o = map[string]any{"anyOf": []any{self, map[string]any{"type": "string"}}, "example": json.Number("1")}
+			default:
+				o = map[string]any{"not": self, "default": "x"}
+			}
 		default:
 			panic("harness: c20 op " + m.Op)
 		}
